@@ -359,8 +359,10 @@ macro_rules! fixed {
 fn subchecks(ctx: &Ctx) -> Vec<SubCheck> {
     let mut v = vec![];
     fixed!(v; (1, 300000), (2, 300000), (3, 250000), (4, 250000), (7, 150000), (8, 150000), (16, 80000));
+    // limb counts that are not a power of two: the iteration budgets are derived from log2(BITS)
+    fixed!(v; (5, 40000), (9, 40000), (11, 30000), (13, 30000), (15, 30000));
     if ctx.thorough() {
-        fixed!(v; (6, 20000), (32, 3000));
+        fixed!(v; (6, 20000), (10, 20000), (12, 20000), (14, 20000), (32, 3000));
     }
     v.push(SubCheck::new("boxed/sqrt/1..=20", 300000, boxed_case(20)).tape(72));
     v.push(SubCheck::new("const/sqrt", 200, const_case).tape(4).thorough(1));
